@@ -152,7 +152,7 @@ func runC02(c C02Case, info *kit.Info) *kit.Finding {
 	})
 	clientPlainLen := func() (n int) { cr.Locked(func() { n = len(dec.Plain) }); return }
 
-	enc := kit.NewStreamEncoder(key, kit.DetBytes(c.Seed, key.SaltSize()))
+	enc := kit.NewStreamEncoder(key, kit.PrefixedSalt(c.Seed, key.SaltSize(), int(c.Seed%31)%len(kit.SaltPrefixes)*int((c.Seed/31)%2))) // every other case: a salt that opens like another protocol
 	encode := func(plain []byte, plan []int) []byte {
 		var out []byte
 		for _, n := range plan {
